@@ -354,7 +354,7 @@ package model
 //@   panics_iff [no_such_criterion_or_weight] !(0 <= criterionIndex && criterionIndex < len(*c)) || !((*c)[criterionIndex].Id in weights)
 //@   ensures [of_that_criterion] (*c)[criterionIndex].Id in weights && result == weights[(*c)[criterionIndex].Id]
 //@ func (*Criteria).Names
-//@   property C20 C18 C19 C07 C09 C15
+//@   property C20 C18 C19 C07 C09 C15 C03
 //@   nopanic
 //@   ensures [ids_in_order] fresh(result) && fresh(*result) && len(*result) == len(*c) && forall i int :: 0 <= i && i < len(*c) ==> (*result)[i] == (*c)[i].Id
 //@   loop 1 invariant [so_far] fresh(result) && len(result) == len(*c) && forall i int :: 0 <= i && i < iter ==> result[i] == (*c)[i].Id
